@@ -45,27 +45,47 @@ pub struct DecodedOp {
 /// cannot be placed in it under these rules. Returns the 8 group values of every batch (missing
 /// groups are zero = NOOP padding). `ops` = (opcode, immediate).
 pub fn batch_greedy(ops: &[(u8, Option<u64>)]) -> Vec<[u64; 8]> {
-    enum G {
-        Ops(Vec<u8>),
-        Imm(u64),
-    }
-    fn place(batch: &mut Vec<G>, cur: &mut Option<usize>, op: (u8, Option<u64>)) -> bool {
+    batch_greedy_layout(ops)
+        .iter()
+        .map(|batch| {
+            let mut o = [0u64; 8];
+            for (i, g) in batch.iter().enumerate() {
+                o[i] = match g {
+                    Slot::Imm(v) => *v,
+                    Slot::Ops(v) => v.iter().enumerate().map(|(k, c)| (c.0 as u64) << (7 * k)).sum(),
+                };
+            }
+            o
+        })
+        .collect()
+}
+
+/// one group of a batch: up to 9 operations (opcode, carries an immediate) or one immediate value
+#[derive(Debug, Clone, PartialEq, Eq)]
+pub enum Slot {
+    Ops(Vec<(u8, bool)>),
+    Imm(u64),
+}
+
+/// the documented batching as a layout: per batch, its groups in order
+pub fn batch_greedy_layout(ops: &[(u8, Option<u64>)]) -> Vec<Vec<Slot>> {
+    fn place(batch: &mut Vec<Slot>, cur: &mut Option<usize>, op: (u8, Option<u64>)) -> bool {
         let in_cur = cur.map(|c| match &batch[c] {
-            G::Ops(v) => v.len(),
-            G::Imm(_) => unreachable!(),
+            Slot::Ops(v) => v.len(),
+            Slot::Imm(_) => unreachable!(),
         });
         match op.1 {
             None => {
                 if let (Some(c), Some(n)) = (*cur, in_cur) {
                     if n < 9 {
-                        if let G::Ops(v) = &mut batch[c] {
-                            v.push(op.0);
+                        if let Slot::Ops(v) = &mut batch[c] {
+                            v.push((op.0, false));
                         }
                         return true;
                     }
                 }
                 if batch.len() < 8 {
-                    batch.push(G::Ops(vec![op.0]));
+                    batch.push(Slot::Ops(vec![(op.0, false)]));
                     *cur = Some(batch.len() - 1);
                     return true;
                 }
@@ -76,10 +96,10 @@ pub fn batch_greedy(ops: &[(u8, Option<u64>)]) -> Vec<[u64; 8]> {
                     if n < 8 {
                         // stays in the current group (not in its last position): needs one group for the immediate
                         if batch.len() < 8 {
-                            if let G::Ops(v) = &mut batch[c] {
-                                v.push(op.0);
+                            if let Slot::Ops(v) = &mut batch[c] {
+                                v.push((op.0, true));
                             }
-                            batch.push(G::Imm(imm));
+                            batch.push(Slot::Imm(imm));
                             return true;
                         }
                         return false;
@@ -87,40 +107,55 @@ pub fn batch_greedy(ops: &[(u8, Option<u64>)]) -> Vec<[u64; 8]> {
                 }
                 // opens a new group: needs that group and one for the immediate
                 if batch.len() + 2 <= 8 {
-                    batch.push(G::Ops(vec![op.0]));
+                    batch.push(Slot::Ops(vec![(op.0, true)]));
                     *cur = Some(batch.len() - 1);
-                    batch.push(G::Imm(imm));
+                    batch.push(Slot::Imm(imm));
                     return true;
                 }
                 false
             }
         }
     }
-    fn close(batch: &[G]) -> [u64; 8] {
-        let mut o = [0u64; 8];
-        for (i, g) in batch.iter().enumerate() {
-            o[i] = match g {
-                G::Imm(v) => *v,
-                G::Ops(v) => v.iter().enumerate().map(|(k, c)| (*c as u64) << (7 * k)).sum(),
-            };
-        }
-        o
-    }
     let mut out = vec![];
-    let mut batch: Vec<G> = vec![];
+    let mut batch: Vec<Slot> = vec![];
     let mut cur: Option<usize> = None;
     for &op in ops {
         if !place(&mut batch, &mut cur, op) {
-            out.push(close(&batch));
-            batch.clear();
+            out.push(std::mem::take(&mut batch));
             cur = None;
             assert!(place(&mut batch, &mut cur, op), "an empty batch accepts any operation");
         }
     }
     if !batch.is_empty() {
-        out.push(close(&batch));
+        out.push(batch);
     }
     out
+}
+
+/// The operations the VM executes for a span, per batch (between SPAN / RESPAN and the next RESPAN /
+/// END): the program's operations in order - NOOPs of the program included, wherever they sit - plus
+/// only the documented alignment NOOPs: one after an immediate-carrying operation that ends its
+/// group (programs.md) and one per group added to bring the batch to 1, 2, 4 or 8 groups
+/// (decoder/main.md, operation batch flags).
+pub fn span_stream(ops: &[(u8, Option<u64>)]) -> Vec<Vec<u8>> {
+    batch_greedy_layout(ops)
+        .iter()
+        .map(|batch| {
+            let mut out = vec![];
+            for g in batch {
+                if let Slot::Ops(v) = g {
+                    out.extend(v.iter().map(|o| o.0));
+                    if v.last().map(|o| o.1).unwrap_or(false) {
+                        out.push(opcode::NOOP);
+                    }
+                }
+            }
+            for _ in batch.len()..batch.len().next_power_of_two() {
+                out.push(opcode::NOOP);
+            }
+            out
+        })
+        .collect()
 }
 
 /// Decodes one batch given its 8 group values and the number of groups it declares, checking the
